@@ -17,7 +17,9 @@ theorem max_eq (a b : Nat) : Gen.max a b = max a b := by unfold Gen.max; split <
 theorem min_eq (a b : Nat) : Gen.min a b = min a b := by unfold Gen.min; split <;> omega
 theorem ceilMul_eq (x m : Nat) : Gen.ceilMul x m = ceilMul x m := rfl
 theorem floorMul_eq (x m : Nat) : Gen.floorMul x m = floorMul x m := rfl
-theorem untranslatable_none : (Gen.max_untranslatable || Gen.min_untranslatable || Gen.ceilMul_untranslatable || Gen.floorMul_untranslatable) = false := by decide
+/-- `Error::offset` (`base/src/error.rs`) -/
+theorem err_offset {α} (e : Err) (n : Nat) : (Res.err e : Res α).offset n = .err ⟨e.kind, Gen.errOffset e.pos n⟩ := rfl
+theorem untranslatable_none : (Gen.errOffset_untranslatable || Gen.max_untranslatable || Gen.min_untranslatable || Gen.ceilMul_untranslatable || Gen.floorMul_untranslatable) = false := by decide
 
 /-! ### field walkers of `utils/iter.rs` and the `fold_size!` / `fold_min_size!` macros (C04, C05) -/
 theorem posNext_eq (pos tsize nextalign : Nat) : Gen.posNext pos tsize nextalign = ceilMul (pos + tsize) nextalign := rfl
@@ -36,7 +38,28 @@ theorem alignL_step (d : Dict) (ds : List Dict) : alignL (d :: ds) = Gen.twoAlig
 theorem foldSizeDyn_step (acc a s : Nat) : Gen.foldSizeDynStep acc a s = ceilMul acc a + s := rfl
 theorem foldSizeDyn_last (d : Dict) (pos acc : Nat) (data : Slice) :
     foldSizeDyn [d] pos acc data = (d.size data).bind fun s => .ok (Gen.foldSizeDynLast acc d.align s) := rfl
-theorem iter_untranslatable_none : (Gen.posNext_untranslatable || Gen.foldSizeStep_untranslatable || Gen.foldSizeLast_untranslatable ||
+/-- `ValidateIter::validate_all`, step: the field at the walker's own position is validated on the remaining data, its error is
+offset by the extracted position, and the slice handed on starts `iterSplitLen prev next` bytes further (`DataIter::next`). -/
+theorem validateAll_step (d d' : Dict) (ds : List Dict) (pos : Nat) (data : Slice) :
+    validateAll (d :: d' :: ds) pos data =
+      match (d.validateU data).offset (Gen.iterValidatePosStep pos) with
+      | .ok () =>
+        match data.splitAt (Gen.iterSplitLen pos (Gen.posNext pos d.ssize d'.align)) with
+        | .ok (_, rest) => validateAll (d' :: ds) (Gen.posNext pos d.ssize d'.align) rest
+        | .err e => .err e
+        | .fault f => .fault f
+      | r => r := rfl
+theorem validateAll_last (d : Dict) (pos : Nat) (data : Slice) :
+    validateAll [d] pos data = (d.validateU data).offset (Gen.iterValidatePosLast pos) := rfl
+/-- the deep read walks with the same split -/
+theorem walkAll_step (d d' : Dict) (ds : List Dict) (pos : Nat) (data : Slice) :
+    walkAll (d :: d' :: ds) pos data =
+      (d.walk data).bind fun v =>
+        match data.splitAt (Gen.iterSplitLen pos (Gen.posNext pos d.ssize d'.align)) with
+        | .ok (_, rest) => (walkAll (d' :: ds) (Gen.posNext pos d.ssize d'.align) rest).bind fun vs => .ok (v :: vs)
+        | .err e => .err e
+        | .fault f => .fault f := rfl
+theorem iter_untranslatable_none : (Gen.iterSplitLen_untranslatable || Gen.iterValidatePosStep_untranslatable || Gen.iterValidatePosLast_untranslatable || Gen.posNext_untranslatable || Gen.foldSizeStep_untranslatable || Gen.foldSizeLast_untranslatable ||
     Gen.foldMinSizeStep_untranslatable || Gen.foldMinSizeLast_untranslatable || Gen.singleMinSize_untranslatable || Gen.twoMinSizeArg_untranslatable ||
     Gen.twoAlign_untranslatable || Gen.foldSizeDynStep_untranslatable || Gen.foldSizeDynLast_untranslatable) = false := by decide
 
@@ -171,6 +194,24 @@ theorem guard_vecValidate (d : Dict) (l : LenTy) (s : Slice) (len slots : Nat) (
       else if d.ssize = 0 then .ok () else vecElems d (max l.size d.align) s len 0 := by
   simp [vecD, hr, hs, Gen.gVecValidate_cond, Gen.gVecValidate_kind]
 
+/-- the element loop of `FlatVec::validate_unchecked`: skipped for zero-sized elements, and an element's error is reported at the
+extracted position -/
+theorem vec_elems_step (d : Dict) (dOff : Nat) (s : Slice) (k i : Nat) :
+    vecElems d dOff s (k+1) i = (do
+      let a ← s.dropU (Gen.vecElemErrPos dOff i d.ssize)
+      let e ← a.takeU d.ssize
+      (d.validateU e).offset (Gen.vecElemErrPos dOff i d.ssize)
+      vecElems d dOff s k (i+1)) := rfl
+theorem vec_elems_visited (d : Dict) (l : LenTy) (s : Slice) (len slots : Nat) (hr : l.readU s = .ok len)
+    (hs : vecSlots d l s.len = .ok slots) (hc : ¬ len > min slots l.max) :
+    (vecD d l).validateU s = if Gen.cVecElemsVisited_cond d.ssize then vecElems d (max l.size d.align) s len 0 else .ok () := by
+  by_cases h0 : d.ssize = 0 <;> simp [vecD, hr, hs, hc, Gen.cVecElemsVisited_cond, h0]
+/-- where `FlatString::validate_unchecked` reports malformed UTF-8 -/
+theorem str_utf8_pos (l : LenTy) (s : Slice) (len p : Nat) (hr : l.readU s = .ok len) (hn : ¬ s.len < l.size)
+    (hc : ¬ len > min (floorMul (s.len - l.size) l.align) l.max)
+    (hu : utf8ValidUpTo (len + 1) 0 ((s.bytes.drop l.size).take len) = some p) :
+    (strD l).validateU s = .err ⟨.invalidData, Gen.strUtf8ErrPos (Gen.strDataOffset l.size) p⟩ := by
+  simp [strD, hr, hn, hc, hu, Gen.strUtf8ErrPos, Gen.strDataOffset]
 theorem guard_strValidate (l : LenTy) (s : Slice) (len : Nat) (hr : l.readU s = .ok len) (hn : ¬ s.len < l.size)
     (h : Gen.gStrValidate_cond len (min (floorMul (s.len - l.size) l.align) l.max) (Gen.strDataOffset l.size) = true) :
     (strD l).validateU s =
@@ -235,6 +276,17 @@ theorem guard_flexFillRoom (it : Ty) (l : LenTy) (i : Init) (is : List Init) (po
   rw [flexFill_cons]
   simp [h, Gen.gFlexFillRoom_kind]
 
+/-- an item emplacer's refusal inside `flex::FromIterator` is reported at the extracted position, after the chain is terminated -/
+theorem guard_flexFillItem (it : Ty) (l : LenTy) (i : Init) (is : List Init) (pos : Nat) (ls : Option Nat) (whole : Bytes) (base : Nat) (o : EO) (e : Err)
+    (hroom : ¬ whole.length - pos < max l.size it.dict.align)
+    (hck : checkAlignMin it.dict.align it.dict.minSize ⟨base + pos + max l.size it.dict.align, whole.drop (pos + max l.size it.dict.align)⟩ = .ok ())
+    (ho : emplaceU it i ⟨base + pos + max l.size it.dict.align, whole.drop (pos + max l.size it.dict.align)⟩ = .ok o) (hres : o.res = .error e) :
+    flexFill it l (i :: is) pos ls whole base =
+      flexFinish l ls (.error ⟨e.kind, Gen.errOffset e.pos (Gen.flexFillItemErrPos pos (Gen.flexOffsetSize l.size it.dict.align))⟩)
+        (whole.take (pos + max l.size it.dict.align) ++ o.bytes) := by
+  rw [flexFill_cons]
+  simp only [Nat.add_assoc] at hck ho
+  simp [hroom, hck, ho, hres, Gen.errOffset, Gen.flexFillItemErrPos, Gen.flexOffsetSize, max_eq, Nat.add_assoc]
 /-- the offset written for a filled item is legal iff the source's test says so; otherwise the source's error -/
 theorem guard_flexFillSeal (it : Ty) (l : LenTy) (i : Init) (is : List Init) (pos : Nat) (ls : Option Nat) (whole : Bytes) (base : Nat) (o : EO) (z : Nat)
     (hroom : ¬ whole.length - pos < max l.size it.dict.align)
@@ -335,15 +387,57 @@ theorem guard_uenum (tag : LenTy) (vs : List (List Dict)) (s : Slice) (t : Nat) 
         (s.dropU dOff).bind fun data =>
           let data := data.take (Gen.uenumValidateFloor data.len al)
           if Gen.gEnumVariantRoom_cond data.len (varMinSize (vs.getD t [])) dOff then .err ⟨Gen.gEnumVariantRoom_kind, dOff⟩
-          else (validateAll (vs.getD t []) 0 data).offset dOff
+          else (validateAll (vs.getD t []) 0 data).offset (Gen.uenumPayloadErrPos dOff)
       else .err ⟨.invalidEnumTag, 0⟩ := by
-  simp only [uenumD, hr, Gen.cTagInRange_cond, Gen.gEnumVariantRoom_cond, Gen.gEnumVariantRoom_kind, Gen.uenumValidateFloor, floorMul_eq,
+  simp only [uenumD, hr, Gen.cTagInRange_cond, Gen.uenumPayloadErrPos, Gen.gEnumVariantRoom_cond, Gen.gEnumVariantRoom_kind, Gen.uenumValidateFloor, floorMul_eq,
     decide_eq_true_eq, Bind.bind, Res.bind]
   split
   · cases s.dropU (ceilMul tag.size (max tag.align (alignLL vs))) <;> simp
   · rfl
 
-theorem guards_untranslatable_none : (Gen.cFlexTruncNoop_untranslatable || Gen.cFlexTruncEmpty_untranslatable || Gen.cFlexPopSome_untranslatable || Gen.gFlexPushRoom_untranslatable || Gen.flexPushItemErrPos_untranslatable || Gen.gEnumVariantRoom_untranslatable || Gen.cTagInRange_untranslatable || Gen.gCheckAlign_untranslatable || Gen.gCheckMin_untranslatable || Gen.gVecValidate_untranslatable ||
+/-- `FlexVec::validate_unchecked`: an item's error is reported at the extracted position (slot position + offset size); the slot
+reader's own refusal at the slot position -/
+theorem flex_item_pos_last (d : Dict) (l : LenTy) (os f pos : Nat) (data hd payload : Slice)
+    (hal : data.addr % max l.align d.align = 0) (hc : checkAlignMin l.align l.size data = .ok ()) (hr : l.readU data = .ok l.max)
+    (hn : l.max ≠ 0) (hroom : ¬ os > data.len) (hs : data.splitAt os = .ok (hd, payload)) :
+    flexValidate d l os (f + 1) pos data = (d.validate payload).offset (Gen.flexItemErrPos pos os) := by
+  unfold flexValidate
+  simp [hal, hc, hr, hn, hroom, hs, Gen.flexItemErrPos]
+theorem flex_item_pos_inner (d : Dict) (l : LenTy) (os f pos next : Nat) (data item rest hd payload : Slice)
+    (hal : data.addr % max l.align d.align = 0) (hc : checkAlignMin l.align l.size data = .ok ()) (hr : l.readU data = .ok next)
+    (hn : next ≠ 0) (hl : next ≠ l.max) (ho : ¬ os > next) (hroom : ¬ os > data.len) (hroom2 : ¬ next > data.len)
+    (hs : data.splitAt next = .ok (item, rest)) (hs2 : item.splitAt os = .ok (hd, payload)) :
+    flexValidate d l os (f + 1) pos data =
+      match (d.validate payload).offset (Gen.flexItemErrPos pos os) with
+      | .ok () => flexValidate d l os f (pos + next) rest
+      | r => r := by
+  conv => lhs; unfold flexValidate
+  simp [hal, hc, hr, hn, hl, ho, hroom, hroom2, hs, hs2, Gen.flexItemErrPos]
+  generalize (d.validate payload).offset (pos + os) = r
+  cases r <;> rfl
+theorem flex_slot_read_pos (d : Dict) (l : LenTy) (os f pos : Nat) (data : Slice) (e : Err)
+    (hal : data.addr % max l.align d.align = 0) (hc : checkAlignMin l.align l.size data = .err e) :
+    flexValidate d l os (f + 1) pos data = .err ⟨e.kind, Gen.errOffset e.pos (Gen.flexSlotReadErrPos pos)⟩ := by
+  unfold flexValidate
+  simp [hal, hc, Gen.flexSlotReadErrPos, Gen.errOffset]
+/-- the same two tests as a method of the field walker (`TypeIter::check_align_and_min_size`, reached through `DataIter::new`) -/
+theorem guard_iterCheck (al mn : Nat) (s : Slice) :
+    checkAlignMin al mn s =
+      if Gen.gIterCheckAlign_cond (s.addr % al) then .err ⟨Gen.gIterCheckAlign_kind, Gen.gIterCheckAlign_pos (s.addr % al)⟩
+      else if Gen.gIterCheckMin_cond s.len mn then .err ⟨Gen.gIterCheckMin_kind, Gen.gIterCheckMin_pos s.len mn⟩
+      else .ok () := by
+  simp [checkAlignMin, Gen.gIterCheckAlign_cond, Gen.gIterCheckAlign_kind, Gen.gIterCheckAlign_pos, Gen.gIterCheckMin_cond, Gen.gIterCheckMin_kind, Gen.gIterCheckMin_pos]
+/-- the generated struct emplacer builds the *checking* walker (`BytesMutIter::new`, which tests the whole floored buffer) and
+reports its refusal at the extracted offset, before anything is written -/
+theorem guard_initWalker (fs : List Ty) (last : Ty) (vals : List Bytes) (li : Init) (s : Slice) (e : Err)
+    (h : checkAlignMin (alignL (dictL fs ++ [last.dict])) (minSizeL (dictL fs ++ [last.dict]) 0)
+      (s.take (Gen.iterNewChecks (Gen.initFloor s.len (alignL (dictL fs ++ [last.dict]))))) = .err e) :
+    emplaceU (.ustruct fs last) (.ustruct vals li) s = .ok ⟨s.bytes, .error ⟨e.kind, e.pos + Gen.initWalkerErrPos 0⟩⟩ := by
+  have h' : checkAlignMin (alignL (dictL fs ++ [last.dict])) (minSizeL (dictL fs ++ [last.dict]) 0)
+      (s.take (floorMul s.len (alignL (dictL fs ++ [last.dict])))) = .err e := h
+  cases e
+  simp [emplaceU, h', Gen.initWalkerErrPos]
+theorem guards_untranslatable_none : (Gen.flexFillItemErrPos_untranslatable || Gen.flexItemErrPos_untranslatable || Gen.flexSlotReadErrPos_untranslatable || Gen.uenumPayloadErrPos_untranslatable || Gen.vecElemErrPos_untranslatable || Gen.strUtf8ErrPos_untranslatable || Gen.cVecElemsVisited_untranslatable || Gen.gIterCheckAlign_untranslatable || Gen.gIterCheckMin_untranslatable || Gen.initWalkerErrPos_untranslatable || Gen.iterNewChecks_untranslatable || Gen.cFlexTruncNoop_untranslatable || Gen.cFlexTruncEmpty_untranslatable || Gen.cFlexPopSome_untranslatable || Gen.gFlexPushRoom_untranslatable || Gen.flexPushItemErrPos_untranslatable || Gen.gEnumVariantRoom_untranslatable || Gen.cTagInRange_untranslatable || Gen.gCheckAlign_untranslatable || Gen.gCheckMin_untranslatable || Gen.gVecValidate_untranslatable ||
     Gen.gVecFromArray_untranslatable || Gen.gStrValidate_untranslatable || Gen.gFlexSlotAlign_untranslatable || Gen.gFlexBadOffset_untranslatable ||
     Gen.gFlexShort_untranslatable || Gen.gFlexFillRoom_untranslatable || Gen.gFlexFillSeal_untranslatable || Gen.gFlexPushSeal_untranslatable) = false := by decide
 end FV.Bridge
